@@ -12,7 +12,7 @@ func init() {
 	register(&Spec{
 		ID:          "C18",
 		Loads:       []LoadSpec{{Patterns: []string{"./sweep"}}},
-		Explanation: "Decides that a sweep transaction is handed to the wallet only by TxPublisher.broadcast, whose record was produced by createAndCheckTx below `fee <= Budget` with the fee that prepareSweepTx computed; that the fee ceiling is min(budget rate, MaxFeeRate) and the schedule clamps at its ending rate; that the schedule position only moves forward and the current rate is only ever derived from the position; that every requested input gets exactly one transaction input; that the amount left after required outputs and fee either becomes a change output not below the dust floor or is added to the reported fee; and that the RBF creation loop leaves only with a checked transaction or an error and raises the fee only through the fee function; further (c18_fix4.go) that a caller-supplied starting rate is lifted to the fee floor and, at the ceiling, yields a function instead of a zero-delta failure, that a budget rate below the fee floor is refused with an error the publisher answers with TxFailed, that a re-offered input keeps the rate already offered, that an estimate below the relay fee is clamped, that no input is filtered out for its starting rate, and that an input is re-queued only when no monitor record works on it.",
+		Explanation: "Decides that a sweep transaction is handed to the wallet only by TxPublisher.broadcast, whose record was produced by createAndCheckTx below `fee <= Budget` with the fee that prepareSweepTx computed; that the fee ceiling is min(budget rate, MaxFeeRate) and the schedule clamps at its ending rate; that the schedule position only moves forward and the current rate is only ever derived from the position; that every requested input gets exactly one transaction input; that the amount left after required outputs and fee either becomes a change output not below the dust floor or is added to the reported fee; and that the RBF creation loop leaves only with a checked transaction or an error and raises the fee only through the fee function; further (c18_fix4.go) that a caller-supplied starting rate is lifted to the fee floor and, at the ceiling, yields a function instead of a zero-delta failure, that a budget rate below the fee floor is refused with an error the publisher answers with TxFailed, that a re-offered input keeps the rate already offered, that an estimate below the relay fee is clamped, that no input is filtered out for its starting rate, and that an input is re-queued only when no monitor record works on it; further (c18_fix5.go) that every writer of an input's recorded starting rate only raises it, that an estimator failure while the fee function is created is answered with TxFailed, that wallet inputs are added until a non-dust change fits, that a fee rate changes its unit only through the unit's conversion method, and that the weight behind the ceiling counts the extra output whenever the transaction built gets one.",
 		NotDecided: []string{
 			"monotonicity and ceiling-reaching of the numeric rate sequence (float arithmetic in the delta)", "fee estimator answers", "weight estimation accuracy (the fee is rate x estimated weight)",
 			"the wallet-funded 'sweep all' transaction built by the free function createSweepTx in txgenerator.go (not a sweeper publication)",
